@@ -1514,8 +1514,62 @@ static void declared_heads()
     mc::outcome(mc::fmt("%zu activations", order.size()));
 }
 
+// ================================================================ H. long histories on one universe
+// The BFS merges states that look equal, so it never performs more than a handful of operations on one object.
+// State that is invisible through the observers and grows with use (a counter, a generation stamp, a cached length)
+// needs MANY operations on the SAME objects: one fixed, deterministic history of `steps` operations per universe,
+// walking the operation alphabet with a stride coprime to its size (every operation recurs, in every reachable
+// neighbourhood), the full oracle after every step.
+template <class M> static void long_history(const char *what, int steps, int stride_seed)
+{
+    M m;
+    int n = m.nops(), stride = stride_seed;
+    while (std::__gcd(stride, n) != 1)
+        stride++;
+    long applied = 0;
+    for (int i = 0, o = 0; i < steps; i++)
+    {
+        o = (int)(((long)o + stride + (i % 7 == 0 ? 1 : 0)) % n);
+        if (m.apply(o))
+            applied++;
+        if (mc::case_has_violation())
+        {
+            mc::violation(mc::fmt("C01.%s.long_history", what), "first failure after %d operations (%ld enabled) of one fixed history on the same objects", i + 1, applied);
+            return;
+        }
+    }
+    if (applied < steps / 100)
+        mc::harness_error("C01 long_history %s: only %ld of %d operations were enabled", what, applied, steps);
+    mc::more_cases(applied, applied);
+    mc::outcome(mc::fmt("%s %s", what, m.key().c_str()));
+}
+static void long_histories()
+{
+    int c = mc::choose(4 * 3);
+    static const int seeds[3] = {1, 5, 11};
+    int steps = mc::thorough() ? 400000 : 70000;
+    mc::describe("universe %d, stride seed %d, %d operations on the same objects", c / 3, seeds[c % 3], steps);
+    mc::nontrivial();
+    switch (c / 3)
+    {
+    case 0:
+        long_history<CDlist>("c_dlist", steps, seeds[c % 3]);
+        break;
+    case 1:
+        long_history<XDlist>("cxx_dlist", steps, seeds[c % 3]);
+        break;
+    case 2:
+        long_history<SlistModel>("slist", steps, seeds[c % 3]);
+        break;
+    default:
+        long_history<HlistModel>("hlist", steps, seeds[c % 3]);
+        break;
+    }
+}
+
 MC_INIT
 {
+    mc::add_check("long_histories", long_histories);
     mc::add_check("declared_heads", declared_heads);
     mc::add_check("two_links_per_element", two_links_per_element);
     mc::add_check("long_lists", long_lists);
